@@ -65,7 +65,22 @@ def gen_ext_history(rng, length):
         c = new("points")
         ops.append({"op": "create", "id": c, "cls": "points", "parent": g, "ws": 0, "n": 3})
 
-    patterns = [p for p, c in ((pattern_type_churn, 30), (pattern_unnamed_pgs, 15), (pattern_deferred_save, 25)) if rng.chance(c)]
+    def pattern_cold_update():
+        # state assigned in one session is UPDATED as the first thing of the next session, before anything was read back
+        # (lazy loaders: the update must act on what the file holds, not on an empty cache)
+        e = pick(["points", "curve", "surface", "group"])
+        if e is not None:
+            v1 = rng.below(100)
+            v2 = v1 + rng.range(1, 2)   # another key (keys are k<v mod 3>)
+            ops.append({"op": "meta", "e": e, "v": v1})
+            ops.append({"op": "reopen"})
+            ops.append({"op": "meta", "e": e, "v": v2})
+            if rng.chance(50):
+                ops.append({"op": "reopen"})
+                ops.append({"op": "meta", "e": e, "v": v2 + 1})
+
+    patterns = [p for p, c in ((pattern_type_churn, 30), (pattern_unnamed_pgs, 15), (pattern_deferred_save, 25), (pattern_cold_update, 25))
+                if rng.chance(c)]
     at = {rng.range(len(ops), max(len(ops), length - 8)): p for p in patterns}
     while len(ops) < length:
         for pos in sorted(at):
@@ -271,6 +286,11 @@ class ExtImpl:
         self.uid = {}  # ordinal -> (ws index, uuid)
         self.validations = []
         self.reopen_diffs = []
+        # documented semantics of the metadata setter ("To update the metadata, use the setter"): a dict is merged into the
+        # stored one.  Shadow = what the user's assignments add up to, per entity ordinal; compared with the live value at
+        # every close (nothing the user did is lost: C01)
+        self.meta_shadow = {}
+        self.meta_diffs = []
 
     def ent(self, i):
         if i is None or i not in self.uid:
@@ -485,21 +505,39 @@ class ExtImpl:
                 e = self.ent(op["e"])
                 if e is None or not self.in_tree(e):
                     return "skipped", info
-                e.metadata = {"k": op["v"]}
+                key = f"k{op['v'] % 3}"
+                e.metadata = {key: op["v"]}
+                self.meta_shadow.setdefault(op["e"], {})[key] = op["v"]
                 info.update(target=e.uid)
             elif o == "listing":
                 _ = getattr(ws, op["kind"])
                 del _
                 info["listing"] = True
             elif o == "reopen":
+                md = []
+                for i, sh in sorted(self.meta_shadow.items()):
+                    e = self.ent(i)
+                    if e is not None and self.in_tree(e):
+                        live = e.metadata
+                        if not isinstance(live, dict) or any(live.get(k) != v for k, v in sh.items()):
+                            md.append({"ordinal": i, "uid": str(e.uid), "assigned": dict(sh), "live": repr(live)[:200]})
+                    del e
+                self.meta_diffs.append(md)
                 before = [snapshot(w) for w in self.ws]
                 for w in self.ws:
                     w.close()
                 self.ws = []
                 gc.collect()
                 self.validations.append([_validate(p) for p in self.paths])
+                # the re-opened tree is read through a separate read-only opening, so that the session that continues starts
+                # COLD (nothing fetched lazily yet: metadata, values, children ... are loaded by the operations themselves)
+                after = []
+                for p in self.paths:
+                    with Workspace(p, mode="r") as wr:
+                        after.append(snapshot(wr))
+                    del wr
+                gc.collect()
                 self.ws = [Workspace(p) for p in self.paths]
-                after = [snapshot(w) for w in self.ws]
                 self.reopen_diffs.append([_diff(b, a) for b, a in zip(before, after)])
                 info["reopen"] = True
                 info["touch_ws"] = [0, 1]
@@ -577,7 +615,7 @@ def run_ext_history(ops, work, tag, want_digests=False):
     for p in im.paths:
         os.remove(p)
     return {"ext": True, "steps": steps, "validations": im.validations, "final_validation": final_validation,
-            "reopen_diffs": im.reopen_diffs, "digests": dig if want_digests else None, "roots": roots}
+            "reopen_diffs": im.reopen_diffs, "meta_diffs": im.meta_diffs, "digests": dig if want_digests else None, "roots": roots}
 
 
 # ============================================================================= drillhole-group histories (C09 oracle stream)
